@@ -334,12 +334,13 @@ end
 
 def File.orderOkNA (f : File) : Bool := f.items.orderOkNA .file .none false false
 
-/-! ### the part of the fragment without `with` / `assert`
+/-! ### the part of the fragment without `assert`
 
 The theorems of C18 (spacing normal form) and C02 are proved for the files without `assert` and with
 at most one blank line after the colon of a lambda (`File.basic`: containers, parentheses, calls,
-`with`, select, `or`, lambda, unary and binary operators); C06 (fixed point of comment-free files)
-for all of these (`Cst.cf`: no `assert`, no `-` fused with a path); C01 and C03 cover the whole fragment. -/
+`with`, select, `or`, lambda, unary and binary operators, `if` / `then` / `else`, has-attr); C06 (fixed point of
+comment-free files) for all of these (`Cst.cf`: no `assert`, no `-` fused with a path); C01 and C03 cover the
+whole fragment. -/
 
 mutual
 def Cst.basic : Cst → Bool
